@@ -1,0 +1,14 @@
+//go:build verif
+// +build verif
+
+package store
+
+// VerifRegister registers a ready made store for url, so that NewStore(url) returns it
+func VerifRegister(url string, s Store) {
+	stores.Store(url, s)
+}
+
+// VerifUnregister forgets the store of url (it is not closed)
+func VerifUnregister(url string) {
+	stores.Delete(url)
+}
